@@ -1,6 +1,7 @@
 import FastgoModel.Props.C10
 import FastgoModel.Proofs.TokenCheck
 import FastgoModel.Proofs.BlockHistory
+import FastgoModel.Proofs.FrameUncond
 /-!
 # C01 — compress then decompress returns the input, for every call pattern
 
@@ -84,6 +85,18 @@ theorem C01_block_frame (mode : Mode) (pos : Nat) (B : Bits) (h : Array UInt8) (
     ∃ s', inflateBlock mode pos (B ++ t) h st' = .next final o (r ++ t) s' :=
   inflateBlock_frame mode pos B h st final o r s hpf hb t st'
 
+/-- the same without side condition: every code a block accepted by the specification declares passed `lensOK`, and
+    RFC 1951's canonical code for such lengths is prefix-free (`canonical_prefixFree_of_lensOK`, Proofs/CanonicalPF.lean) -/
+theorem C01_block_prefix_stable (mode : Mode) (pos : Nat) (B : Bits) (h : Array UInt8) (st : Stats)
+    (final : Bool) (o : Array UInt8) (r : Bits) (s : Stats)
+    (hb : inflateBlock mode pos B h st = .next final o r s) (t : Bits) (st' : Stats) :
+    ∃ s', inflateBlock mode pos (B ++ t) h st' = .next final o (r ++ t) s' :=
+  inflateBlock_prefix_stable mode pos B h st final o r s hb t st'
+
+theorem C01_canonical_code_prefix_free (mode : Mode) (lens : List Nat) (h : lensOK mode lens = true) :
+    PrefixFree (canonical lens) :=
+  canonical_prefixFree_of_lensOK mode lens h
+
 theorem C01_checked_block_meets_contract (mode : Mode) (pos : Nat) (carry : Bits) (out : List UInt8) (carry' : Bits)
     (final : Bool) (p h : Array UInt8) (x : List UInt8) (hc : checkEnc mode pos carry out carry' final h x = true) :
     ∃ B, IsBlock mode pos B final (p ++ h) x ∧
@@ -135,6 +148,8 @@ example : checkEnc .strict 0 [] realDyn [] true #[] "abcabcabcabc".toUTF8.toList
 end Fastgo.Writer
 
 #print axioms Fastgo.Writer.C01_block_frame
+#print axioms Fastgo.Writer.C01_block_prefix_stable
+#print axioms Fastgo.Writer.C01_canonical_code_prefix_free
 #print axioms Fastgo.Writer.C01_checked_block_meets_contract
 #print axioms Fastgo.Writer.C01_block_history_local
 #print axioms Fastgo.Writer.C01_roundtrip_dyn
